@@ -11,15 +11,23 @@ import (
 // substring) are copied, with their verdicts, under the borrower's own obligation id.
 var borrowing = map[string]bool{}
 
+var borrowMemo = map[string]*Ctx{}
+
 func borrow(c *Ctx, asID, owner, ownerOb, constructSub, why string) {
 	if borrowing[c.Prop] || borrowing[owner] {
 		return // no nesting
 	}
 	borrowing[c.Prop] = true
 	defer delete(borrowing, c.Prop)
-	sub := newCtx(c.P, owner, c.Tier)
-	sub.Fx = c.Fx
-	props[owner].run(sub)
+	// the owner's obligations are computed once per program and tier (several properties borrow from the same owner)
+	key := owner + "|" + c.Tier
+	sub := borrowMemo[key]
+	if sub == nil || sub.P != c.P {
+		sub = newCtx(c.P, owner, c.Tier)
+		sub.Fx = c.Fx
+		props[owner].run(sub)
+		borrowMemo[key] = sub
+	}
 	n := 0
 	for _, o := range sub.Obs {
 		if o.ID != owner+"-"+ownerOb || !strings.Contains(o.Construct, constructSub) {
